@@ -555,3 +555,38 @@ pub fn placement_dont_care(name: &str) -> bool {
                 | "SpecConstantArchitectureINTEL" | "SpecConstantCapabilitiesINTEL" | "GraphConstantARM" | "GraphARM" | "GraphEntryPointARM"
         )
 }
+
+
+/// Id-relation sequences: every sequence of length <= `len` over instructions whose result type / result id / selector
+/// are drawn from {1,2,3}: values typed by values, rings of ids (%1 = OpUndef %2, %2 = OpUndef %1), types declared
+/// after their use, then a consumer (constant / switch / further value) that makes the reader follow the chain.
+pub fn id_relation_sequences(len: usize) -> Vec<(String, Vec<Inst>)> {
+    let mut sym: Vec<(String, Inst)> = vec![];
+    for a in 1..=3u32 {
+        for b in 1..=3u32 {
+            sym.push((format!("U{}{}", a, b), Inst::new("Undef", Some(a), Some(b), vec![])));
+        }
+    }
+    for r in 1..=2u32 {
+        sym.push((format!("T{}", r), Inst::new("TypeInt", None, Some(r), vec![Arg::Lit32(32), Arg::Lit32(0)])));
+    }
+    for a in 1..=3u32 {
+        sym.push((format!("C{}", a), Inst::new("Constant", Some(a), Some(4), vec![Arg::Lit32(7)])));
+        sym.push((format!("S{}", a), Inst::new("Switch", None, None, vec![Arg::IdRef(a), Arg::IdRef(9), Arg::Lit32(1), Arg::IdRef(9)])));
+    }
+    let mut out: Vec<(String, Vec<Inst>)> = vec![];
+    let mut frontier: Vec<(String, Vec<Inst>)> = vec![(String::new(), vec![])];
+    for _ in 0..len {
+        let mut next = vec![];
+        for (n, v) in &frontier {
+            for (sn, si) in &sym {
+                let mut v2 = v.clone();
+                v2.push(si.clone());
+                next.push((format!("{}{}{}", n, if n.is_empty() { "" } else { "," }, sn), v2));
+            }
+        }
+        out.extend(next.iter().cloned());
+        frontier = next;
+    }
+    out
+}
